@@ -76,6 +76,12 @@ func (r *peerRegistry) addPeer(c network.Conn, p *p2p.Peer) (exists bool) {
 	r.mu.Lock()
 	defer r.mu.Unlock()
 
+	if c.IsClosed() {
+		// the disconnect notification for this connection may already have been
+		// delivered, so it must be neither tracked nor announced as connected.
+		return true
+	}
+
 	if _, ok := r.connections[c.RemotePeer()]; !ok {
 		r.connections[c.RemotePeer()] = make(map[network.Conn]struct{})
 	}
